@@ -243,6 +243,10 @@ func (r *Rule) doEvaluate(logger debuglog.Logger, phase types.RulePhase, tx *Tra
 				continue
 			}
 			var values []types.MatchData
+			// v is a copy, but its Exceptions slice shares the backing array of the rule, which is
+			// shared by every transaction of the WAF: cap the slice so that append always copies
+			// instead of writing this transaction's exclusions into spare capacity.
+			v.Exceptions = v.Exceptions[:len(v.Exceptions):len(v.Exceptions)]
 			for _, c := range ecol {
 				if c.Variable == v.Variable {
 					// TODO shall we check the pointer?
